@@ -543,7 +543,7 @@ def int_position_lets(prog, natives=None):
     return used & lets
 
 
-def overrides(ch, prog, natives=None):
+def overrides(ch, prog, natives=None, wide=True):
     """An override dictionary over a subset of the lets that keeps the program valid
     (decided by the reference semantics); invalid candidates are dropped key by key."""
     lets = [n for n, _ in prog["lets"]]
@@ -557,7 +557,7 @@ def overrides(ch, prog, natives=None):
         if n in intpos:
             env[n] = ch.int(0, 7)
         else:
-            env[n] = ch.pick([ch.int(-4, 9), ch.pick([0.5, -1.25, 3.0, 1e-06, 2.5e-05]), ch.float()])
+            env[n] = ch.pick([ch.int(-4, 9), ch.pick([0.5, -1.25, 3.0, 1e-06, 2.5e-05]), ch.float() if wide else ch.small_number()])
     for n in list(env):
         try:
             Ref(prog, env).validate()
